@@ -22,7 +22,7 @@ LIST_SETUPS = {
     'param-assign': ['a := [@h10@, @h11@]', 'b := [7, 8]', 'fn f(p, q) {', '    p = [1, 1]', '    q[0] = 77', '    return p', '}', 'c := [f(a, b), 5]'],
     'object-field': ['a := [@h10@, @h11@]', 'o := {"k": a}', 'b := o.k', 'c := [o["k"], 5]'],
 }
-LIST_OPS = ['a[0] = @h%d@', 'b[0] = @h%d@', 'c[0][1] = @h%d@', 'a += [@h%d@]', 'b += [@h%d@]', 'a[0:1] = [@h%d@]', 'c[0] = [@h%d@]', 'b = [@h%d@]', 'c[0] += [@h%d@]', 'c[0] += c[0]', 'print(0)']
+LIST_OPS = ['b[:] = [0, @h%d@]', 'fn same(l) {\n    return l\n}\nd := same(a) + [@h%d@]\nprint(d === a)\nprint(d)', 'a[0] = @h%d@', 'b[0] = @h%d@', 'c[0][1] = @h%d@', 'a += [@h%d@]', 'b += [@h%d@]', 'a[0:1] = [@h%d@]', 'c[0] = [@h%d@]', 'b = [@h%d@]', 'c[0] += [@h%d@]', 'c[0] += c[0]', 'print(0)']
 OBJ_SETUPS = {
     'alias': ['a := {"k": @h10@, "j": @h11@, "lst": [1]}', 'b := a', 'c := {"in": a}', 'l0 := a.lst'],
     'spread-fresh': ['a := {"k": @h10@, "j": @h11@, "lst": [1]}', 'b := {a..}', 'c := {"in": {a..}}', 'l0 := a.lst'],
